@@ -955,3 +955,33 @@ Proof.
   - intros phi edges est batches Hlen Hinc Hun.
     apply (mia_unused_superset_invariant phi edges est Hlen Hinc parts parts' batches); assumption.
 Qed.
+
+(* ================================================================ the evaluation-friendly form of the MIA spec is the spec *)
+Lemma map_combine_map {A B C} (f : A -> B) (g : A * B -> C) (l : list A) :
+  map g (combine l (map f l)) = map (fun a => g (a, f a)) l.
+Proof. induction l as [|a l IH]; [reflexivity|]. cbn [map combine]. rewrite IH. reflexivity. Qed.
+
+Lemma a_mi_fast_eq {A} phi (cnt : nat -> A -> Qc) bs vs : a_mi_fast A phi cnt bs vs = a_mi A phi cnt bs vs.
+Proof.
+  unfold a_mi_fast, a_mi. cbv zeta. apply qsum_map_ext. intros v _. f_equal.
+  rewrite (map_combine_map (fun b => phi (a_nz (a_cb A cnt vs b / a_nz (a_total A cnt bs vs))))
+                           (fun be => phi (a_nz (cnt (fst be) v / a_nz (a_cv A cnt bs v))) - snd be) bs).
+  reflexivity.
+Qed.
+
+Lemma vhist_tags edges (rows : list M.row) b c :
+  length (filter (fun t : option nat * Z => match fst t with Some b' => Nat.eqb b' b && Z.eqb (snd t) c | None => false end)
+                 (map (fun r : M.row => (M.bin_spec edges (fst r), snd r)) rows))
+  = length (filter (vhits edges b c) rows).
+Proof.
+  induction rows as [|r rows IH]; [reflexivity|]. cbn [map filter fst snd]. unfold vhits at 1.
+  destruct (M.bin_spec edges (fst r)) as [b'|]; [destruct (Nat.eqb b' b && Z.eqb (snd r) c)|]; cbn [length]; rewrite IH; reflexivity.
+Qed.
+
+Theorem mi_values_fast_eq phi edges vals rows : mi_values_fast phi edges vals rows = mi_values phi edges vals rows.
+Proof.
+  unfold mi_values_fast, mi_values. cbv zeta. rewrite a_mi_fast_eq.
+  rewrite (a_total_ext _ (fun b c => qz (vhist edges rows b c))) by (intros; unfold vhist; rewrite vhist_tags; reflexivity).
+  rewrite (a_mi_ext phi _ (fun b c => qz (vhist edges rows b c))) by (intros; unfold vhist; rewrite vhist_tags; reflexivity).
+  reflexivity.
+Qed.
